@@ -418,8 +418,9 @@ func ChildMain(targets []Target) error {
 		// backstop: an allocation the machine cannot afford fails here instead of taking the box down
 		_ = syscall.Setrlimit(syscall.RLIMIT_AS, &syscall.Rlimit{Cur: lim, Max: lim})
 	}
-	debug.SetMemoryLimit(1 << 30)
-	debug.SetGCPercent(50)
+	// no soft memory limit: with a multi-GiB live object it makes the collector run back to back;
+	// RLIMIT_AS above is the backstop
+	debug.SetGCPercent(100)
 	inputs, err := Read(corpus, from, to)
 	if err != nil {
 		return err
